@@ -349,6 +349,19 @@ def check(plan):
             mp = mirror[p]
             if reported[p] or p not in order or texts[p] is None:
                 progress[p] = _nlines(handed.get(mp, "")) if p in order else 0
+        # the failure kinds the property names (undecodable bytes, output path occupied) must not change any
+        # other file at all: such a file contributes nothing to the reference, however the implementation reads
+        strict = set()
+        for f in plan["faults"]:
+            if f["kind"] in ("undecodable", "out_is_dir", "out_parent_is_file") and f["path"] in progress:
+                v = f["path"]
+                if not any((g.get("victim") or g.get("path")) == v for g in h["faults"] if g.get("fired")):
+                    strict.add(v)
+        if finished:
+            for v in strict:
+                if progress[v] > 0:
+                    probes["named_fault_with_progress"] = probes.get("named_fault_with_progress", 0) + 1
+                progress[v] = 0
         # in a crashed/interrupted/aborted run the file in flight (the last one opened) is partial
         if not finished and order:
             p = order[-1]
@@ -374,7 +387,7 @@ def check(plan):
             # the recorder may under-report progress for implementations that batch their writes;
             # search for a progress assignment that explains every other file (sound: exists-n)
             probes["progress_search"] += 1
-            cands = [p for p in progress if p in order]
+            cands = [p for p in progress if p in order and p not in strict]
             tried = 0
             for p in cands:
                 total = _nlines(texts[p] if texts[p] is not None else ptexts[p])
